@@ -1243,7 +1243,24 @@ fn random_script(r: &mut Rng) -> String {
         }
     };
     let body = |r: &mut Rng, callee: Option<&str>, in_fn: bool, n: usize| -> String {
-        (0..n).map(|_| stmt(r, callee, in_fn)).collect::<Vec<_>>().join(" , ")
+        let mut v: Vec<String> = (0..n).map(|_| stmt(r, callee, in_fn)).collect();
+        // motifs that need a function context: a local shadowing an outer variable that is then
+        // unset / marked read-only / exported from inside the function
+        if in_fn && r.chance(1, 3) {
+            let m = r.pick(&SCRIPT_NAMES).to_string();
+            let motif: Vec<String> = match r.below(5) {
+                0 => vec![format!("L {m}=1"), format!("U {m}")],
+                1 => vec![format!("L {m}"), format!("UV {m}")],
+                2 => vec![format!("R {m}")],
+                3 => vec![format!("R {m}=Q")],
+                _ => vec![format!("L {m}=2"), format!("EX {m}")],
+            };
+            let at = r.below(v.len() + 1);
+            for (k, st) in motif.into_iter().enumerate() {
+                v.insert(at + k, st);
+            }
+        }
+        v.join(" , ")
     };
     let ng = 1 + r.below(4);
     let nf = 1 + r.below(5);
